@@ -13,8 +13,8 @@ pub fn prop() -> HistProp {
         drain: true,
         quick: 150_000,
         thorough: 2_000_000,
-        rule: "operation histories generated as one value (sends with application attributes, indications, clock advances, timer calls exact/early/late, replies to outstanding/finished/unknown ids with every authentication and fingerprint variant, 401/438 challenges, garbage and mutated buffers) run against a real client and the reference tracker in lock-step under a virtual clock; after every send_request and on_timeout a notification must exist exactly when a request is awaiting, name a request with the earliest pending deadline (hook: exactly one timer entry per awaiting request) and give max(0, deadline-now) to the nanosecond; at the end a simulated controller that only follows notifications (armed, replaced by newer ones, fired late by generated amounts) must see every request reach a final outcome no later than its first call at or after the request's deadline and be left without timers; non-trivial = at least 2 requests outstanding together (interleaved deadlines); distinct = hash of the history",
-        assumptions: &["pending deadline = the armed timer entry exposed by the hook; the RFC deadline of a request comes from the model"],
+        rule: "operation histories generated as one value (sends with application attributes, indications, clock advances, timer calls exact/early/late, replies to outstanding/finished/unknown ids with every authentication and fingerprint variant, 401/438 challenges, garbage and mutated buffers) run against a real client and the reference tracker in lock-step under a virtual clock; after every send_request and on_timeout a notification must exist exactly when a request is awaiting, name a request with the earliest pending deadline (the model's deadlines; hook: an awaiting request has a timer entry) and give max(0, deadline-now) to the nanosecond; at the end a simulated controller that only follows notifications (armed, replaced by newer ones, fired late by generated amounts) must see every request reach a final outcome no later than its first call at or after the request's deadline and be left without timers; non-trivial = at least 2 requests outstanding together (interleaved deadlines); distinct = hash of the history",
+        assumptions: &["pending deadlines are the model's (next unused RFC slot or final deadline per awaiting request); the hook only shows whether an awaiting request still has a timer entry"],
         nontrivial: |_, s| s.max_concurrency >= 2,
     }
 }
